@@ -207,18 +207,20 @@ func stableSample(limit time.Duration) (sample, bool) {
 }
 
 // settle samples after an evaluation: at once, then until the projection is back at the baseline or
-// has been stable elsewhere at the 2 s limit. stable=false means the count kept changing (exit 2).
+// has stayed elsewhere for the whole limit (15 s: generous on purpose; a real leak is permanent, a slow
+// machine must never turn a late goroutine exit into a verdict). stable=false: the count kept
+// changing at the end (exit 2).
 func settle(base sample) (delta sample, stable bool) {
 	s := measure()
 	if s == base {
 		return sample{}, true
 	}
-	deadline := time.Now().Add(2 * time.Second)
+	deadline := time.Now().Add(15 * time.Second)
 	wait := 50 * time.Microsecond
 	var hist []sample
 	for time.Now().Before(deadline) {
 		time.Sleep(wait)
-		if wait < 5*time.Millisecond {
+		if wait < 20*time.Millisecond {
 			wait *= 2
 		}
 		s = measure()
@@ -297,7 +299,7 @@ func (r *runner) eval(code string, cancelAt int, inflight time.Duration) result 
 	var res result
 	select {
 	case res = <-done:
-	case <-time.After(30 * time.Second):
+	case <-time.After(180 * time.Second):
 		return result{Timeout: true}
 	}
 	if timer != nil {
@@ -333,14 +335,20 @@ const keyPipeFail = "leak:pipe-creation-failure"
 // withFdLimit runs f with the soft RLIMIT_NOFILE lowered so that exactly `spare` descriptor numbers
 // are free; the limit is restored before anything is measured.
 func withFdLimit(spare int, f func()) error {
-	ents, err := os.ReadDir("/proc/self/fd")
+	d, err := os.Open("/proc/self/fd")
+	if err != nil {
+		return err
+	}
+	names, err := d.Readdirnames(-1)
+	self := int(d.Fd())
+	d.Close()
 	if err != nil {
 		return err
 	}
 	used := map[int]bool{}
-	for _, e := range ents {
+	for _, name := range names {
 		var n int
-		if _, err := fmt.Sscanf(e.Name(), "%d", &n); err == nil {
+		if _, err := fmt.Sscanf(name, "%d", &n); err == nil && n != self { // the listing's own descriptor is free again
 			used[n] = true
 		}
 	}
@@ -384,12 +392,15 @@ func evaluateN(c *lib.Ctx, r *runner, rd *renderer, shape Shape, v variant, n in
 	code := rd.program(shape, v.long)
 	vc := VCase{Shape: shape, Code: strings.ReplaceAll(code, rd.dir, "DIR"), How: v.how, N: n}
 	runtime.GC()
-	base, ok := stableSample(2 * time.Second)
+	time.Sleep(time.Millisecond)
+	runtime.GC() // let finalizers of earlier garbage run before the baseline is taken
+	base, ok := stableSample(20 * time.Second)
 	if !ok {
 		return vc, lib.Infra("baseline of the fd/goroutine projection is not stable before %q", vc.Code)
 	}
 	old := debug.SetGCPercent(-1) // finalizers must not close a leaked file behind our back
 	defer debug.SetGCPercent(old)
+	rebase := 0
 	for i := 0; i < n; i++ {
 		var res result
 		if v.pipefail {
@@ -406,7 +417,7 @@ func evaluateN(c *lib.Ctx, r *runner, rd *renderer, shape Shape, v variant, n in
 		}
 		c.AddEvals(1)
 		if res.Timeout {
-			return vc, lib.Infra("evaluation of %q (%s) did not return within 30 s", vc.Code, v.how)
+			return vc, lib.Infra("evaluation of %q (%s) did not return within 180 s", vc.Code, v.how)
 		}
 		if res.Panic != "" {
 			return vc, lib.Infra("evaluation of %q (%s) faulted: %.300s", vc.Code, v.how, res.Panic)
@@ -415,6 +426,16 @@ func evaluateN(c *lib.Ctx, r *runner, rd *renderer, shape Shape, v variant, n in
 			return vc, lib.Infra("generator produced a program that does not compile: %q: %v", vc.Code, res.Err)
 		}
 		d, stable := settle(base)
+		if stable && (d.Fd < 0 || d.Go < 0) && rebase < 8 {
+			// something older went away (e.g. a file leaked by an earlier, already reported case was
+			// finalised): the baseline moved, this is not a measurement of this evaluation
+			rebase++
+			if base, ok = stableSample(20 * time.Second); !ok {
+				return vc, lib.Infra("baseline of the fd/goroutine projection is not stable before %q", vc.Code)
+			}
+			i--
+			continue
+		}
 		if !stable {
 			return vc, lib.Infra("fd/goroutine projection did not settle after %q (%s): last %+v", vc.Code, v.how, d)
 		}
@@ -470,9 +491,9 @@ func run(c *lib.Ctx) error {
 	if c.Thorough() {
 		maxForms, level = 3, 2
 	}
-	N := c.Pick(30, 50)
+	N := c.Pick(30, 40)
 	c.Set("bounds", map[string]any{"MaxForms": maxForms, "Level": level, "N": N})
-	tr, err := c.TLC("MCPortsRes", lib.TLCRun{Dir: dir, Module: "MCPortsRes", Workers: 8, Timeout: 12 * time.Minute, HeapGB: 8, Deadlock: true,
+	tr, err := c.TLC("MCPortsRes", lib.TLCRun{Dir: dir, Module: "MCPortsRes", Workers: 4, Timeout: 40 * time.Minute, HeapGB: 8, Deadlock: true,
 		Files: map[string][]byte{"MCPortsRes.cfg": mcCfg(maxForms, level, true)}})
 	if err != nil {
 		return err
@@ -545,7 +566,7 @@ func run(c *lib.Ctx) error {
 	c.Set("exhaustive", true)
 
 	// ---- V: random larger programs
-	nv := c.Pick(300, 6000)
+	nv := c.Pick(300, 3000)
 	rng := rand.New(rand.NewSource(c.Seed*104729 + 5))
 	t0 = time.Now()
 	for i := 0; i < nv; i++ {
@@ -577,7 +598,7 @@ func run(c *lib.Ctx) error {
 }
 
 func judge(c *lib.Ctx, dir string, cases []VCase) error {
-	bad, err := lib.Judge(c, "JudgePortsRes", dir, "JudgePortsRes", cases, 8, 10*time.Minute)
+	bad, err := lib.Judge(c, "JudgePortsRes", dir, "JudgePortsRes", cases, 4, 40*time.Minute)
 	if err != nil {
 		return err
 	}
